@@ -46,6 +46,8 @@ type Case struct {
 	// Fail (modes batches / hashes): per position how many times the executed-status lookup of that
 	// proposal fails before the chain answers (absent = no lookup is scripted to fail)
 	Fail []int `json:"fail,omitempty"`
+	// Dels (mode history): the deliveries made, in order, on ONE Executor object (history.go); Props is unused
+	Dels []Delivery `json:"dels,omitempty"`
 }
 
 type BatchObs struct {
@@ -64,6 +66,8 @@ type Obs struct {
 	BatErr  bool   `json:"bat_err,omitempty"`
 	ExecErr bool   `json:"exec_err,omitempty"`
 	Note    string `json:"note,omitempty"`
+	// mode history: one observation per delivery
+	Dels []DelObs `json:"dels,omitempty"`
 }
 
 // failBridge makes the executed-status lookup of chosen proposals fail the first k times it is asked
@@ -232,6 +236,9 @@ func (g *gate) onUnsubscribe(id comm.SubscriptionID) {
 }
 
 func run(c Case) Obs {
+	if c.Mode == "history" {
+		return runHistory(c)
+	}
 	if c.Mode == "session" {
 		c.Fail = nil // failing lookups are driven in the batches / hashes modes only
 	}
@@ -514,6 +521,9 @@ func gen(r *vgen.Rng, tier string) []Case {
 		}
 		out = append(out, Case{Mode: mode, Mid: vgen.Pick(r, mids), Cap: cap, Tg: tg, Props: ps, Fail: fail})
 	}
+	// 7. deliveries that are not in ascending nonce order / come from several source domains, and histories of
+	// 2..6 such deliveries on ONE Executor object (history.go).  Their own stream: the cases above stay what they were
+	out = append(out, genHistories(vgen.NewRng(r.U64()), tier)...)
 	return out
 }
 
@@ -538,6 +548,9 @@ func coqBatches(bs []BatchObs) string {
 }
 
 func coq(c Case, o Obs) string {
+	if c.Mode == "history" {
+		return coqHistory(c, o)
+	}
 	hashed := func() string {
 		return vgen.ListOf(o.Hashed, func(m []uint64) string { return vgen.ListOf(m, vgen.N) })
 	}
@@ -577,6 +590,13 @@ func coq(c Case, o Obs) string {
 
 func pending(c Case) int {
 	n := 0
+	for _, d := range c.Dels {
+		for _, p := range d.Props {
+			if !p.Executed {
+				n++
+			}
+		}
+	}
 	for _, p := range c.Props {
 		if !p.Executed {
 			n++
@@ -596,6 +616,12 @@ func main() {
 		Kind: func(c Case) string {
 			if c.Mode == "session" {
 				return "session"
+			}
+			if c.Mode == "history" {
+				if len(c.Dels) == 1 {
+					return "order"
+				}
+				return "history"
 			}
 			if len(c.Fail) > 0 {
 				return "lookup-fails"
